@@ -5,10 +5,11 @@
 # (default: the property's own check) against /repo with the patch applied.
 set -u
 ID="$1"; X="$2"; shift 2
-SRC=/tmp/seed/$ID-out
+SRC=${SEEDROOT:-/tmp/seed}/$ID-out
+TAG=${SEEDTAG:-}
 [ -f "$SRC/$X.patch.diff" ] || { echo "no patch $SRC/$X.patch.diff"; exit 2; }
 export GOFLAGS=-mod=mod GOPROXY=off GOSUMDB=off GOTOOLCHAIN=local
-W=/tmp/confirm-$ID-$X
+W=/tmp/confirm-$ID-$TAG$X
 git -C /repo worktree remove --force "$W" 2>/dev/null
 git -C /repo worktree add -q --detach "$W" HEAD || exit 2
 cleanup() { git -C /repo worktree remove --force "$W" 2>/dev/null; }
@@ -25,17 +26,17 @@ case "$pkg" in
 esac
 cp "$DEMO" "$dest"
 tname=$(grep -o 'func Test[A-Za-z0-9_]*' "$dest" | awk '{print $2}' | paste -sd'|')
-( cd "$W" && go test -vet=off -count=1 -run "^($tname)\$" $run ) > /tmp/confirm-$ID-$X.clean.log 2>&1; rc_clean=$?
-( cd "$W" && git apply "$SRC/$X.patch.diff" ) || { echo "$ID-$X: patch does not apply"; exit 2; }
-( cd "$W" && go build ./... ) > /tmp/confirm-$ID-$X.build.log 2>&1; rc_build=$?
-( cd "$W" && go test -vet=off -count=1 -run "^($tname)\$" $run ) > /tmp/confirm-$ID-$X.patched.log 2>&1; rc_patched=$?
+( cd "$W" && go test -tags verif -vet=off -count=1 -run "^($tname)\$" $run ) > /tmp/confirm-$ID-$TAG$X.clean.log 2>&1; rc_clean=$?
+( cd "$W" && git apply "$SRC/$X.patch.diff" ) || { echo "$ID-$TAG$X: patch does not apply"; exit 2; }
+( cd "$W" && go build ./... ) > /tmp/confirm-$ID-$TAG$X.build.log 2>&1; rc_build=$?
+( cd "$W" && go test -tags verif -vet=off -count=1 -run "^($tname)\$" $run ) > /tmp/confirm-$ID-$TAG$X.patched.log 2>&1; rc_patched=$?
 rm -f "$dest"
-( cd "$W" && go test -vet=off -count=1 ./... ) > /tmp/confirm-$ID-$X.suite.log 2>&1; rc_suite=$?
-echo "$ID-$X: demo clean rc=$rc_clean  build rc=$rc_build  demo patched rc=$rc_patched  suite patched rc=$rc_suite"
+( cd "$W" && go test -vet=off -count=1 ./... ) > /tmp/confirm-$ID-$TAG$X.suite.log 2>&1; rc_suite=$?
+echo "$ID-$TAG$X: demo clean rc=$rc_clean  build rc=$rc_build  demo patched rc=$rc_patched  suite patched rc=$rc_suite"
 if [ $rc_clean -ne 0 ] || [ $rc_build -ne 0 ] || [ $rc_patched -eq 0 ] || [ $rc_suite -ne 0 ]; then
-  echo "$ID-$X: NOT CONFIRMED (see /tmp/confirm-$ID-$X.*.log)"; exit 1
+  echo "$ID-$TAG$X: NOT CONFIRMED (see /tmp/confirm-$ID-$TAG$X.*.log)"; exit 1
 fi
-D=/verif/seeded/$ID-$X
+D=/verif/seeded/$ID-$TAG$X
 mkdir -p "$D"
 cp "$SRC/$X.patch.diff" "$D/patch.diff"
 cp "$DEMO" "$D/$(basename "$DEMO")"
@@ -55,4 +56,4 @@ out={"breaks_property":ID,"source":"independent sub-agent given only the propert
  "checks_run":det}
 json.dump(out,open(f"{D}/meta.json","w"),indent=1)
 PY
-rm -f /tmp/confirm-$ID-$X.*.log
+rm -f /tmp/confirm-$ID-$TAG$X.*.log
